@@ -131,11 +131,16 @@ CHECKS = {
               "and globals byte for byte over hostile names / prefixes, constructor run through its branches; the EnvWizard copy of the dump "
               "generator (environ/dumpers.py) is tied to the GenDump model modulo a stated substitution (sixth call argument / closure key), "
               "so C15_gendump_well_scoped covers it. For "
-              "the v1 load generator the statement for every class is carried by the oracle (sampled), not by a theorem. The renaming oracle "
+              "the v1 load generator the skeleton (everything around the per-field value expressions) is modelled as text "
+              "(DW/Model/GenLoadV1.lean: layered statements, conditions that bind, reads that may be unbound by design): theorem "
+              "C15_genloadv1_well_scoped for every class under Python's scoping rule, given that each value expression reads only v1 and "
+              "outside names (an input read off the generated line by an evaluation-order-aware ast walk; premises evaluated on every "
+              "generated function), C15_genloadv1_ctor_vars_local; tie: body byte for byte, declared names vs ast, bound names vs the "
+              "compiler's, run on documents; the value expressions themselves (type-directed, recursive) are carried by the oracle. The renaming oracle "
               "is also run over histories of use (harness/props/c15_hist.py): nested classes with their own Meta loaded / dumped on "
               "their own before and after the root, x Meta.recursive = False, x one __name__ for several definitions and names of the "
               "form <shared name><number>, both engines"),
-        technique='Lean 4 proof over quoting / naming models and over text-level models of the dump-function, default load-function and EnvWizard constructor generators (scoping theorems for every class, byte-for-byte correspondence with the generated source) + tables regenerated from generated code + renaming-equivariance oracle', ref='4 C15'),
+        technique='Lean 4 proof over quoting / naming models and over text-level models of the dump-function, default load-function, EnvWizard constructor and v1 load-function (skeleton) generators (scoping theorems for every class, byte-for-byte correspondence with the generated source) + tables regenerated from generated code + renaming-equivariance oracle', ref='4 C15'),
     'C16': dict(
         text=("Lean theorems over a model of the property_wizard metaclass, dataclass field collection and the setter wrapper: field "
               "order, constructor parameters, the declared default is the one routed through the setter exactly once when the argument "
